@@ -141,6 +141,7 @@ type End struct {
 	wfail         chan struct{}
 	wfailOnce     sync.Once
 	discard       bool
+	readErr       error        // error returned by a failed Read (default ErrRead)
 	failWriteSet  map[int]bool // one-shot failing write indices
 	// OnWriteEntry, if set (use SetOnWriteEntry), is called at the very start of Write, before
 	// any serialisation: parking here models a transport in which concurrent Write calls are
@@ -180,6 +181,23 @@ func (e *End) FailWriteAt(n int, once bool) {
 	e.failWriteAt = n
 	e.failWriteOnce = once
 	e.mu.Unlock()
+}
+
+// SetReadErr chooses the error a failed Read returns (transports report loss differently:
+// io.EOF, a wrapped io.EOF, context.Canceled from their own shutdown, ...).
+func (e *End) SetReadErr(err error) {
+	e.mu.Lock()
+	e.readErr = err
+	e.mu.Unlock()
+}
+
+func (e *End) rerr() error {
+	e.mu.Lock()
+	defer e.mu.Unlock()
+	if e.readErr != nil {
+		return e.readErr
+	}
+	return ErrRead
 }
 
 // FailWritesAt makes the writes with these 0-based indices fail, each once.
@@ -246,7 +264,7 @@ func (e *End) Read(ctx context.Context) (*Rpc, error) {
 	}
 	select {
 	case <-e.rfail:
-		return nil, ErrRead
+		return nil, e.rerr()
 	case <-e.l.killed:
 		return nil, ErrKill
 	default:
@@ -256,7 +274,7 @@ func (e *End) Read(ctx context.Context) (*Rpc, error) {
 	case <-ctx.Done():
 		return nil, ctx.Err()
 	case <-e.rfail:
-		return nil, ErrRead
+		return nil, e.rerr()
 	case <-e.l.killed:
 		return nil, ErrKill
 	case r := <-in:
